@@ -8,9 +8,10 @@ from . import c08_gen, c08_spell as sp
 
 TRUSTED = [
     "Coq 8.16.1 kernel (coqc, vm_compute); no axioms: every theorem is 'Closed under the global context'",
-    "translator vplib/props/c08_gen.py (escape table, based-number rows, shapes of multi_quoted_string / number / translate_literal, documented escape table from the book; fail closed)",
+    "translator vplib/props/c08_gen.py (escape table, based-number rows, shapes of multi_quoted_string / number / translate_literal, per-dialect string_literal_backslash_escape, documented escape table from the book; fail closed)",
     "Model/Escape.v is a hand model of sqlparser 0.60 EscapeQuotedString (dependency code), validated exhaustively on short strings against the real Display (harness `escape`)",
     "Model/SqlLex.v models the reading side (standard '' doubling; backslash family per sqlparser's supports_string_literal_backslash_escape) from documentation; validated against SQLite itself (end-to-end) and sqlparser's per-dialect tokenizers; the ten non-executable engines' real lexers are NOT exercised",
+    "which dialect READS backslash escapes (Gen table reader_backslash_escape) is what the pinned sqlparser's dialect objects say (harness c08_dialects), standing in for the engines' documentation; which dialect WRITES doubled backslashes is read from sql/dialect.rs",
     "Model/Literal.v is a hand model of the PRQL literal lexers, validated against prqlc::prql_to_tokens and an independent python decoder written from the language reference",
     "binary64 rounding and Rust's {:?} float printing are not modelled: floats are checked end-to-end only, on spellings exact in binary (plus extremes)",
     "harness (prqlc::compile, rusqlite bundled SQLite) and python comparison code",
@@ -18,15 +19,20 @@ TRUSTED = [
 
 ALPHA = ["'", '"', "\\", "a", "\n", "-", "*", "/", ";", "é", "\U0001F600"]
 ALPHA_X = ALPHA + [" ", "{", "}", "%", "_", "n", "\t", "0", "O", "R", "=", "1", "\r", "\r\n"]
-STD = ["ansi", "duckdb", "generic", "glaredb", "mssql", "postgres", "sqlite"]
+STD = ["ansi", "duckdb", "generic", "glaredb", "mssql", "postgres", "sqlite"]      # model std_sql
 BSF = ["clickhouse", "snowflake", "redshift"]           # model bs_sql
 ALL_DIALECTS = STD + BSF + ["mysql", "bigquery"]
+# the configuration the unchanged tree is expected to have (the check reads the real one from the source on every run:
+# info["writer_bs"] / info["reader"]; these constants are only the fallback when the translator fails closed)
+WRITER_BS_FALLBACK = {d: d in BSF + ["mysql"] for d in ALL_DIALECTS}
+READER_FALLBACK = {d: (d in BSF + ["mysql", "bigquery"], d == "mysql") for d in ALL_DIALECTS}
 
 HEADER = ("From Coq Require Import List NArith ZArith.\nFrom PV Require Import Lib.ListX Model.Escape Model.SqlLex Model.Literal.\n"
           "Import ListNotations.\nLocal Open Scope N_scope.\n"
           "Definition canon (l : list tok) : list (N * str) := match rev l with TUnterminated :: _ => [(6, [])] | _ => filter (fun p => negb (fst p =? 5)) (map tok_view l) end.\n"
-          "Definition three (s : str) := let e := emit_literal_string s in (emit_string s, canon (sql_lex std_sql e), canon (sql_lex bs_sql e), canon (sql_lex mysql_sql e), e).\n"
-          "Definition lexq (s : str) := (canon (sql_lex std_sql s), canon (sql_lex bs_sql s), canon (sql_lex mysql_sql s)).\n")
+          # e0 / e1: what translate_literal emits without / with backslash doubling
+          "Definition five (s : str) := let e0 := emit_literal_string false s in let e1 := emit_literal_string true s in\n"
+          "  (emit_string s, (e0, e1), canon (sql_lex std_sql e0), (canon (sql_lex bs_sql e1), canon (sql_lex mysql_sql e1)), (canon (sql_lex bs_sql e0), canon (sql_lex mysql_sql e0))).\n")
 
 KIND = {"String": 1, "Quoted": 2, "DString": 2, "Word": 3, "Number": 4}
 
@@ -91,13 +97,20 @@ def run():
     rows_expr = "[" + "; ".join("(%s, %d, %d%%nat)" % (coq_codes(p).replace("%N", ""), b, n) for p, b, n in rows) + "]"
     model_ok = True
 
+    writer_bs = dict(info.get("writer_bs") or WRITER_BS_FALLBACK.items())
+    reader = {n: (b, w) for n, b, w in info["reader"]} if info.get("reader") else dict(READER_FALLBACK)
+    ck.coverage["backslash_doubling_dialects"] = sorted(d for d, w in writer_bs.items() if w)
+    ck.coverage["backslash_reading_dialects"] = sorted(d for d, (b, _) in reader.items() if b)
+
     def cl_string(case):
+        """F6c: bigquery only (reads backslash escapes and has no doubled-quote escape -- a literal that starts with three quotes
+        is a triple-quoted string -- but gets the standard emission), value with a backslash or a quote.
+        mysql / clickhouse / snowflake / redshift (F6b, FIXED by d2c1667) are excused by nothing any more."""
         v = case.get("value")
         if v is None:
             return None
-        d = case.get("dialect")
-        if d in BSF + ["mysql", "bigquery"] and (bs_value(v) or (d == "bigquery" and "'" in v)):
-            return "F6b-backslash-family"
+        if case.get("dialect") == "bigquery" and (bs_value(v) or "'" in v):
+            return "F6c-bigquery-string-escapes"
         return None
 
     # ------------------------------------------------------------ 1. emit_string / sql_lex models vs sqlparser Display and tokenizers
@@ -110,75 +123,102 @@ def run():
         if s not in seen:
             seen.add(s); strings.append(s)
     impl_esc = harness("escape", [{"s": s, "quote": '"'} for s in strings])                       # sqlparser alone (dependency)
-    impl_lit = harness("escape", [{"s": s.replace("'", "''"), "quote": '"'} for s in strings])    # what prqlc does now: pre-doubled, then sqlparser
-    emitted = [a["string"] for a in impl_lit]
-    # ... and prqlc itself, for every string that has a spelling (all of them): the SQL text of the literal
-    short = [s for s in strings if len(s) <= n_ex and "\x00" not in s]
-    comp1 = harness("compile", [{"src": "from t | select {v = %s}" % ('"' + sp.esc_for('"', s, ck.rng, 1) + '"'), "target": "sql.sqlite"} for s in short])
-    prqlc_text = {}
-    for s, a in zip(short, comp1):
-        sql = a.get("ok", "")
-        if sql.startswith("SELECT ") and sql.endswith(" AS v FROM t"):
-            prqlc_text[s] = sql[len("SELECT "):-len(" AS v FROM t")]
-        else:
-            ck.violation("string literal %r does not compile to SELECT <literal> AS v FROM t" % s, {"kind": "emit-shape", "value": s, "answer": a})
+    # what translate_literal does now, recomputed outside prqlc: quotes doubled (e3af91e), on a backslash-doubling dialect
+    # backslashes doubled first (d2c1667), then sqlparser's real Display
+    emitted = {False: [a["string"] for a in harness("escape", [{"s": s.replace("'", "''"), "quote": '"'} for s in strings])],
+               True: [a["string"] for a in harness("escape", [{"s": s.replace("\\", "\\\\").replace("'", "''"), "quote": '"'} for s in strings])]}
+    # ... and prqlc itself, for every short string (each has a spelling), for EVERY dialect: the SQL text of the literal
+    short = [(i, s) for i, s in enumerate(strings) if len(s) <= n_ex and "\x00" not in s]
+    short_src = ["from t | select {v = %s}" % ('"' + sp.esc_for('"', s, ck.rng, 1) + '"') for _, s in short]
+    prqlc_text = {}            # (dialect, index of string) -> literal text
+    for d in ALL_DIALECTS:
+        pre, suf = "SELECT ", (' AS "v" FROM "t"' if d == "snowflake" else " AS v FROM t")
+        for (i, s), src, a in zip(short, short_src, harness("compile", [{"src": src, "target": "sql." + d} for src in short_src])):
+            sql = a.get("ok", "")
+            if sql.startswith(pre) and sql.endswith(suf):
+                prqlc_text[(d, i)] = sql[len(pre):-len(suf)]
+            else:
+                ck.violation("string literal %r does not compile to SELECT <literal> AS v FROM t for %s" % (s, d), {"kind": "emit-shape", "value": s, "dialect": d, "src": src, "answer": a})
+    # sqlparser's tokenizer of each dialect reads the text that dialect gets
     tok_by = {}
-    for d in ("sqlite", "generic", "postgres", "clickhouse", "snowflake", "redshift", "mysql"):
-        tok_by[d] = [canon_tok(a) for a in harness("c08_tok", [{"sql": e, "dialect": d} for e in emitted])]
-    model3 = None
+    for d in ALL_DIALECTS:
+        tok_by[d] = [canon_tok(a) for a in harness("c08_tok", [{"sql": e, "dialect": d} for e in emitted[writer_bs[d]]])]
+    # the lexer model's decoding of backslash escapes other than a doubled backslash is only exercised by text WITHOUT backslash doubling
+    # (bigquery's situation today, every backslash dialect's before d2c1667): keep comparing it with the real tokenizers
+    tok_plain = {d: [canon_tok(a) for a in harness("c08_tok", [{"sql": e, "dialect": d} for e in emitted[False]])] for d in ("clickhouse", "mysql", "bigquery")}
+    model5 = None
     try:
         B = 100
-        vals = coq_eval(HEADER, ["map three [" + "; ".join(coq_codes(s) for s in strings[i:i + B]) + "]" for i in range(0, len(strings), B)])
-        model3 = [x for v in vals for x in v]
+        vals = coq_eval(HEADER, ["map five [" + "; ".join(coq_codes(s) for s in strings[i:i + B]) + "]" for i in range(0, len(strings), B)])
+        model5 = [x for v in vals for x in v]
     except RuntimeError as ex:
         model_ok = False
         ck.coverage["model_eval_error"] = str(ex)[-600:]
-    fam = {"sqlite": 1, "generic": 1, "postgres": 1, "clickhouse": 2, "snowflake": 2, "redshift": 2, "mysql": 3}
+    # which lexer model stands for which dialect: by the reading-side flags
+    def model_of(d):
+        b, w = reader[d]
+        return "mysql" if (b and w) else ("bs" if b else "std")
     for i, s in enumerate(strings):
-        ck.count("escape-model", s, nontrivial=("'" in s))
+        ck.count("escape-model", s, nontrivial=("'" in s or "\\" in s))
         ck.stat("escape-model", "len%d" % min(len(s), 9))
         if f6_value(s):
             ck.stat("escape-model", "old-F6-class")
-        # implementation side, independent of the Coq model: the real tokenizers must read exactly the value back
-        for d in ("sqlite", "generic", "postgres"):
+        if bs_value(s):
+            ck.stat("escape-model", "old-F6b-class")
+        # implementation side, independent of the Coq model: every dialect's real tokenizer must read exactly the value back
+        for d in ALL_DIALECTS:
+            text = emitted[writer_bs[d]][i]
             if tok_by[d][i] != [(1, s)]:
-                ck.disagreement("sqlparser %s tokenizer does not read %r back from %r" % (d, s, emitted[i]), {"kind": "tok-roundtrip", "value": s, "dialect": d, "text": emitted[i], "tokens": tok_by[d][i]}, cl_string)
-        for d in ("clickhouse", "snowflake", "redshift", "mysql"):
-            if tok_by[d][i] != [(1, s)]:
-                ck.disagreement("sqlparser %s tokenizer does not read %r back from %r" % (d, s, emitted[i]), {"kind": "tok-roundtrip", "value": s, "dialect": d, "text": emitted[i], "tokens": tok_by[d][i]}, cl_string)
-        if s in prqlc_text and prqlc_text[s] != emitted[i]:
-            ck.violation("prqlc emits %r for the string value %r; quote-doubling followed by sqlparser's Display gives %r" % (prqlc_text[s], s, emitted[i]),
-                         {"kind": "prqlc-vs-predoubled", "value": s, "prqlc": prqlc_text[s], "expected": emitted[i]})
-        if model3 is None:
+                ck.disagreement("sqlparser %s tokenizer does not read %r back from %r" % (d, s, text), {"kind": "tok-roundtrip", "value": s, "dialect": d, "text": text, "tokens": tok_by[d][i]}, cl_string)
+            if (d, i) in prqlc_text and prqlc_text[(d, i)] != text:
+                ck.violation("prqlc emits %r for the string value %r on %s; %s followed by sqlparser's Display gives %r"
+                             % (prqlc_text[(d, i)], s, d, "backslash- and quote-doubling" if writer_bs[d] else "quote-doubling", text),
+                             {"kind": "prqlc-vs-predoubled", "value": s, "dialect": d, "prqlc": prqlc_text[(d, i)], "expected": text})
+        if model5 is None:
             continue
-        m = model3[i]
-        if s_of(m[0]) != impl_esc[i]["string"]:
-            ck.violation("model of EscapeQuotedString differs from sqlparser's Display", {"kind": "model-vs-sqlparser", "s": s, "model": s_of(m[0]), "impl": impl_esc[i]["string"]})
-        if s_of(m[4]) != emitted[i]:
-            ck.violation("model emit_literal_string differs from pre-doubling + sqlparser's Display", {"kind": "model-vs-impl", "s": s, "model": s_of(m[4]), "impl": emitted[i]})
-        if s in prqlc_text and prqlc_text[s] != s_of(m[4]):
-            ck.violation("model emit_literal_string differs from prqlc's output for %r" % s, {"kind": "model-vs-prqlc", "value": s, "model": s_of(m[4]), "prqlc": prqlc_text[s]})
-        for d, f in fam.items():
-            ck.count("sqllex-model", d + "|" + s, nontrivial=("'" in s or "\\" in s))
-            mm, ii = canon_model(m[f]), tok_by[d][i]
-            clean = (f == 1 or "\\" not in s)
-            if clean:
-                differ = mm != ii
-            else:
-                # backslash family, value with a backslash (F6b, open): the text after an early end of the literal is
-                # arbitrary SQL where the tokenizers have quirks of their own: compare what matters, the string token
-                differ = bool(mm and ii and mm[0][0] == 1 and ii[0][0] == 1 and mm[0] != ii[0]) or ((mm == [(1, s)]) != (ii == [(1, s)]))
-            if differ:
-                ck.violation("SQL lexer model differs from sqlparser's %s tokenizer" % d,
-                             {"kind": "lexmodel-vs-sqlparser", "dialect": d, "s": s, "text": emitted[i], "model": mm, "impl": ii})
-        # the round trip holds for EVERY string on the standard family (theorem string_roundtrip)
-        if canon_model(m[1]) != [(1, s)]:
-            ck.violation("model: string literal value %r is not read back from %r" % (s, emitted[i]), {"kind": "roundtrip", "value": s, "dialect": "sqlite", "text": emitted[i]})
+        m_esc, (m_e0, m_e1), m_std, (m_bs1, m_my1), (m_bs0, m_my0) = model5[i]
+        if s_of(m_esc) != impl_esc[i]["string"]:
+            ck.violation("model of EscapeQuotedString differs from sqlparser's Display", {"kind": "model-vs-sqlparser", "s": s, "model": s_of(m_esc), "impl": impl_esc[i]["string"]})
+        for flag, me in ((False, m_e0), (True, m_e1)):
+            if s_of(me) != emitted[flag][i]:
+                ck.violation("model emit_literal_string %s differs from pre-doubling + sqlparser's Display" % flag, {"kind": "model-vs-impl", "s": s, "bs": flag, "model": s_of(me), "impl": emitted[flag][i]})
+        for d in ALL_DIALECTS:
+            me = s_of(m_e1 if writer_bs[d] else m_e0)
+            if (d, i) in prqlc_text and prqlc_text[(d, i)] != me:
+                ck.violation("model emit_literal_string differs from prqlc's output for %r on %s" % (s, d), {"kind": "model-vs-prqlc", "value": s, "dialect": d, "model": me, "prqlc": prqlc_text[(d, i)]})
+        # lexer models vs the real tokenizers, on the text each dialect gets
+        by_model = {("std", False): m_std, ("bs", True): m_bs1, ("mysql", True): m_my1, ("bs", False): m_bs0, ("mysql", False): m_my0}
+        for d in ALL_DIALECTS:
+            for plain in (False, True):
+                if plain and (d not in tok_plain or not writer_bs[d]):
+                    continue
+                flag = False if plain else writer_bs[d]
+                mm = by_model.get((model_of(d), flag))
+                if mm is None:          # a standard reader given doubled backslashes: not a configuration of the unchanged tree
+                    continue
+                if d == "bigquery" and "'" in s:
+                    continue            # BigQuery's triple-quoted strings are not modelled by Model/SqlLex.v (part of F6c)
+                ck.count("sqllex-model", d + "|" + str(int(flag)) + "|" + s, nontrivial=("'" in s or "\\" in s))
+                mm, ii = canon_model(mm), (tok_plain[d][i] if plain else tok_by[d][i])
+                clean = (reader[d][0] == flag) or "\\" not in s
+                if clean:
+                    differ = mm != ii
+                else:
+                    # backslash reader, backslashes NOT doubled, value with a backslash: the text after an early end of the
+                    # literal is arbitrary SQL where the tokenizers have quirks of their own: compare what matters, the string token
+                    differ = bool(mm and ii and mm[0][0] == 1 and ii[0][0] == 1 and mm[0] != ii[0]) or ((mm == [(1, s)]) != (ii == [(1, s)]))
+                if differ:
+                    ck.violation("SQL lexer model differs from sqlparser's %s tokenizer" % d,
+                                 {"kind": "lexmodel-vs-sqlparser", "dialect": d, "s": s, "text": emitted[flag][i], "model": mm, "impl": ii})
+        # instances of the theorems: EVERY string round-trips in the model, standard and backslash classes
+        for what, mm, flag in (("std_sql", m_std, False), ("bs_sql", m_bs1, True), ("mysql_sql", m_my1, True)):
+            if canon_model(mm) != [(1, s)]:
+                ck.violation("model: string literal value %r is not read back by %s from %r" % (s, what, emitted[flag][i]), {"kind": "roundtrip", "value": s, "reader": what, "text": emitted[flag][i]})
     ck.coverage["escape_exhaustive_upto"] = n_ex
 
     # ------------------------------------------------------------ 2. PRQL literal decoding: model vs prql_to_tokens vs python reference
     lits = []          # (spelling, python value or None, kind)
-    vals_pool = ["", "a", "'", '"', "\\", "a'b", 'a"b', "a\\b", "''", "\\'", "a''b", "\\' OR 1=1 --", "it's", "é", "\U0001F600", "a\nb", "--", "/*", "*/", ";", "a;b",
+    vals_pool = ["", "a", "'", '"', "\\", "a\\nb", "a\\", "a'b", 'a"b', "a\\b", "''", "\\'", "a''b", "\\' OR 1=1 --", "it's", "é", "\U0001F600", "a\nb", "--", "/*", "*/", ";", "a;b",
                  "{", "}", "{}", "a{b}c", "%_", "\t", "\\n", "x\\", "'; DROP TABLE t; --", "\"\"", "'''", "\\\\", "a\\'b", "'a'", "\"a\""]
     for _ in range(ck.n(150, 1500)):
         k = ck.rng.randrange(1, 7)
@@ -387,6 +427,49 @@ def run():
         if toks != want:
             ck.disagreement("dialect %s: statement for literal %s is not SELECT <one string token = value> AS v FROM t: %s" % (d, p[3]["lit"], toks[:8]),
                             {"kind": "dialect-tokens", "dialect": d, "value": value, "src": p[0], "sql": sql, "tokens": toks[:12]}, cl_string)
+
+    # ------------------------------------------------------------ 5. the other places a literal lands in (relation literal, WHERE, f-string
+    #      pieces inside CONCAT / ||), every dialect: the statement's token list must be that of the same program written with a harmless
+    #      placeholder literal, with the placeholder's string token(s) replaced by the value -- nothing created, removed or merged
+    PH = "PLACEHOLDERzz"
+    ref_src = {"array": 'from [{v = "%s"}]' % PH, "filter": 'from u | filter c == "%s" | select {v = c}' % PH, "fhole": 'from t | select {v = f"%s{c}%s"}' % (PH, PH)}
+    ref_tok = {}
+    rc = harness("compile", [{"src": ref_src[sk], "target": "sql." + d} for sk in sorted(ref_src) for d in ALL_DIALECTS])
+    rkeys = [(sk, d) for sk in sorted(ref_src) for d in ALL_DIALECTS]
+    rt_ = harness("c08_tok", [{"sql": a.get("ok", ""), "dialect": d} for (sk, d), a in zip(rkeys, rc)])
+    for key, a, tk in zip(rkeys, rc, rt_):
+        toks = canon_tok(tk)
+        if "ok" not in a or (1, PH) not in toks:
+            ck.violation("placeholder program does not compile / tokenise for %s" % (key,), {"kind": "context-ref", "skeleton": key[0], "dialect": key[1], "compile": a})
+        else:
+            ref_tok[key] = toks
+    by_sk = {}
+    for pgm in progs:
+        sk = pgm[3]["skeleton"]
+        if sk in ref_src and pgm[1] == "sql.sqlite" and pgm[3]["kind"].startswith("string") and not (sk == "fhole" and pgm[3]["value"] == ""):
+            by_sk.setdefault(sk, []).append(pgm)
+    cprogs = [pgm for sk in sorted(by_sk) for pgm in by_sk[sk][:ck.n(60, 600)]]
+    cans = harness("compile", [{"src": pgm[0], "target": "sql." + d} for pgm in cprogs for d in ALL_DIALECTS])
+    treqs, tmeta = [], []
+    k = 0
+    for pgm in cprogs:
+        for d in ALL_DIALECTS:
+            a = cans[k]; k += 1
+            if "ok" in a:
+                treqs.append({"sql": a["ok"], "dialect": d}); tmeta.append((pgm, d, a["ok"]))
+            else:
+                ck.violation("literal program does not compile for %s" % d, {"src": pgm[0], "dialect": d, "compile": a})
+    for (pgm, d, sql), a in zip(tmeta, harness("c08_tok", treqs)):
+        value, sk = pgm[3]["value"], pgm[3]["skeleton"]
+        if (sk, d) not in ref_tok:
+            continue
+        ck.count("context-tokens", d + "|" + pgm[0], nontrivial=("'" in value or "\\" in value))
+        ck.stat("context-tokens", sk)
+        toks = canon_tok(a)
+        want = [((1, value) if tk == (1, PH) else tk) for tk in ref_tok[(sk, d)]]
+        if toks != want:
+            ck.disagreement("dialect %s, %s context: literal %s changed the statement's token structure: %s" % (d, sk, pgm[3]["lit"], toks[:10]),
+                            {"kind": "context-tokens", "dialect": d, "skeleton": sk, "value": value, "src": pgm[0], "sql": sql, "tokens": toks[:14], "expected": want[:14]}, cl_string)
 
     ck.proof_broken_violation(found_input=bool(ck.violations))
     ck.assumptions += ["NUL characters are excluded from executed strings (SQLite's API ends the statement text at NUL)",
